@@ -185,6 +185,8 @@ func Program(r *run.Rng, o Opts) []rec.Op {
 			l := RunLengths[r.Intn(len(RunLengths))]
 			if o.ShortRun {
 				l = r.Range(1, 3)
+			} else if r.Chance(1, 150) {
+				l = r.Pick(255, 256, 257, 300, 512, 513) // around the widths of 8-bit counters
 			}
 			for ; l > 0; l-- {
 				if r.Chance(1, 16) && len(ops) > 0 && ops[len(ops)-1].K == k {
